@@ -33,6 +33,9 @@ func genTree(g simrt.Gen, maxDepth int) (root *Spec, all []*Spec, parentOf map[s
 	mk = func(kind, id string, depth int) *Spec {
 		sp := &Spec{Kind: kind, ID: id, MaxRestarts: g.Range(0, 2), InboxSize: []int{1024, 1, 2, 4}[g.IntN(4)],
 			PanicInit: map[int]bool{}, PanicStarted: map[int]bool{}, PanicStopped: map[int]bool{}, SlowStarted: g.Bool(0.2)}
+		if g.Bool(0.25) {
+			sp.NMiddleware = g.Range(1, 2)
+		}
 		all = append(all, sp)
 		if depth < maxDepth {
 			n := g.Pick(2, 4, 3, 1) // 0..3 children
